@@ -15,11 +15,13 @@ package main
 // invariant checks (H2SnapCase / H3SnapCase); h2Oracle is the model-free oracle on them.
 
 import (
+	"context"
 	"crypto/tls"
 	"fmt"
 	"io"
 	"net"
 	"net/http"
+	"net/http/httptrace"
 	"sort"
 	"strings"
 	"sync"
@@ -296,9 +298,31 @@ func runH2Scenario(cr *childResult, rng *hk.Rand, sidx int) (settled bool) {
 			q := &h2req{idx: len(reqs), gate: make(chan struct{}), arrived: make(chan struct{}), done: make(chan struct{})}
 			reqs = append(reqs, q)
 			env.reqs.Store(fmt.Sprint(q.idx), q)
+			ci := rng.Chance(40)
+			var armed atomic.Bool
+			armed.Store(ci)
+			trace := &httptrace.ClientTrace{GotConn: func(httptrace.GotConnInfo) {
+				if armed.CompareAndSwap(true, false) {
+					// another goroutine's CloseIdleConnections exactly between GetClientConn's
+					// reservation and the opening of the stream
+					t.CloseIdleConnections()
+					// this request holds a reservation on the connection it picked, and the origin
+					// of these scenarios never closes a connection: a reserved connection that is
+					// closed now was closed by CloseIdleConnections
+					for _, l := range req.VerifH2Snapshot(t).Conns {
+						for _, cn := range l {
+							if cn.Closed && cn.Reserved > 0 {
+								cr.fail(hk.Failure{Sig: "closeidle:h2replay:closed-while-reserved", What: "CloseIdleConnections closed an HTTP/2 connection that a request had already picked (stream slot reserved, stream not yet open)",
+									Input: map[string]interface{}{"max_concurrent_streams": m, "ops": desc, "request": q.idx},
+									Got:   map[string]interface{}{"reserved": cn.Reserved, "streams": len(cn.Streams), "closed": cn.Closed}})
+							}
+						}
+					}
+				}
+			}}
 			go func() {
 				defer close(q.done)
-				resp, err := c.R().SetHeader("X-Req", fmt.Sprint(q.idx)).Get("https://" + env.addr + "/")
+				resp, err := c.R().SetContext(httptrace.WithClientTrace(context.Background(), trace)).SetHeader("X-Req", fmt.Sprint(q.idx)).Get("https://" + env.addr + "/")
 				q.err = err
 				if err == nil && resp.Response != nil {
 					b, _ := io.ReadAll(resp.Body)
@@ -317,12 +341,26 @@ func runH2Scenario(cr *childResult, rng *hk.Rand, sidx int) (settled bool) {
 			case <-time.After(8 * time.Second):
 			}
 			if !arrived {
+				select {
+				case <-q.done:
+					// the request ended without reaching the origin: nothing in these scenarios
+					// may make a request fail
+					cr.fail(hk.Failure{Sig: "error:h2replay:start", What: "a request of a deterministic HTTP/2 scenario failed before it reached the origin (connection closed under a request that had already picked it?)",
+						Input: map[string]interface{}{"max_concurrent_streams": m, "ops": desc, "request": q.idx, "closeidle_at_gotconn": ci}, Got: fmt.Sprint(q.err)})
+					return true
+				default:
+				}
 				unsettled = true
 				break
 			}
 			snap, ok := settle(len(op) + 1)
 			cr.count("h2replay.op=start")
-			record("P2Start", map[string]interface{}{"start": q.idx}, snap, ok)
+			opName := "P2Start"
+			if ci {
+				opName = "P2StartCI"
+				cr.count("h2replay.op=start+closeidle-at-GotConn")
+			}
+			record(opName, map[string]interface{}{"start": q.idx, "closeidle_at_gotconn": ci}, snap, ok)
 		case k < 85 && len(op) > 0:
 			q := hk.Pick(rng, op)
 			close(q.gate)
